@@ -125,7 +125,9 @@ JBuild(e) ==
     [] e.fn = "NewLease" ->
         LET ms == TimeToDate(m.sec, m.ns)  valid == ~m.neg /\ FitsInt64(ms) IN
         << R("C02", "constructed_lease_bytes", r.ok /\ valid, r.ser = m.gw \o m.tid \o PadTo(ms, 8), cls),
-           R("C15", "lease_end_date_exact", r.ok /\ valid, LeaseEnd(r.ser) = PadTo(ms, 8), cls) >> \o LifecycleT(r, cls, FarFuture(m.sec) /\ ~m.neg)
+           R("C15", "lease_end_date_exact", r.ok /\ valid, LeaseEnd(r.ser) = PadTo(ms, 8), cls),
+           \* an instant whose millisecond count does not fit is refused, never stored as some wrapped date
+           R("C15", "lease_never_stores_wrapped_date", r.ok /\ ~m.neg, FitsInt64(ms) /\ LeaseEnd(r.ser) = PadTo(ms, 8), cls) >> \o LifecycleT(r, cls, FarFuture(m.sec) /\ ~m.neg)
     [] e.fn = "NewLease2" ->
         LET inRange == ~m.neg /\ FitsIn(m.sec, 4) IN
         << R("C02", "constructed_lease2_bytes", r.ok /\ inRange, r.ser = m.gw \o m.tid \o PadTo(m.sec, 4), cls),
